@@ -689,7 +689,34 @@ pub fn build(seed: u64, size: usize) -> Pool {
         pushf(&mut ops, Op::CellToBoundary { cell: c, closed: false, segments: Some(820) }, g, fam);
         // a BIG input as well (4^8 cells to compact), next to small mixed-resolution inputs
         if let Ok(many) = a5::cell_to_children(c, Some(r + 8)) {
+            // ... and look-alikes of it: same length, same first and last element, different
+            // content in between (one member replaced by a copy of its neighbour; one member
+            // replaced by a cell from elsewhere; two members swapped) - what a caller that
+            // edits its buffer in place passes next
+            let mid = many.len() / 2 + (rng.below(64) as usize);
+            let mut dup = many.clone();
+            dup[mid] = dup[mid - 1];
+            let mut alien = many.clone();
+            alien[mid / 2] = rng.pick(&base_cells).0;
+            let mut swapped = many.clone();
+            swapped.swap(mid / 3, mid);
             pushf(&mut ops, Op::Compact { cells: many }, g, fam);
+            pushf(&mut ops, Op::Compact { cells: dup }, g, fam);
+            pushf(&mut ops, Op::Compact { cells: alien }, g, fam);
+            pushf(&mut ops, Op::Compact { cells: swapped }, g, fam);
+        }
+        // the same for a medium-sized input (4^5 = 1024 or 4^6 = 4096 cells)
+        if let Ok(mediumset) = a5::cell_to_children(c, Some(r + rng.range(5, 6) as i32)) {
+            let mid = mediumset.len() / 2 + (rng.below(16) as usize);
+            let mut dup = mediumset.clone();
+            dup[mid] = dup[mid + 1];
+            let mut shorter = mediumset.clone();
+            shorter.remove(mid);
+            pushf(&mut ops, Op::Compact { cells: mediumset.clone() }, g, fam);
+            pushf(&mut ops, Op::Compact { cells: dup }, g, fam);
+            pushf(&mut ops, Op::Compact { cells: shorter.clone() }, g, fam);
+            pushf(&mut ops, Op::Uncompact { cells: shorter, res: r + 6 }, g, fam);
+            pushf(&mut ops, Op::Uncompact { cells: mediumset, res: r + 6 }, g, fam);
         }
         if let Ok(r0) = a5::get_res0_cells() {
             for _ in 0..4 {
@@ -1009,6 +1036,130 @@ pub fn build(seed: u64, size: usize) -> Pool {
         pushf(&mut ops, Op::Barycentric { p, tri: vec![verts[0], verts[1], verts[2]] }, 255, fam);
         pushf(&mut ops, Op::Barycentric { p, tri: vec![verts[0], verts[2], verts[1]] }, 255, fam);
         pushf(&mut ops, Op::Barycentric { p, tri: vec![verts[2], verts[0], verts[1]] }, 255, fam);
+    }
+
+    cur_type = b'o';
+    // (o) value flow BETWEEN families: the library's own geometric constants, bit-exact, as the
+    //     arguments of the low-level helper families, next to indexing calls that use the same
+    //     triangle (seeded change c13-al: a per-thread memo of triangle areas inside the shared
+    //     spherical-triangle helper, keyed by the UNORDERED vertex set; random helper arguments
+    //     never coincide with the 62 CRS vertices the projection uses).
+    {
+        use a5::coordinate_systems::Cartesian;
+        let unit = |x: f64, y: f64, z: f64| {
+            let l = (x * x + y * y + z * z).sqrt();
+            Cartesian::new(x / l, y / l, z / l)
+        };
+        let centres: Vec<Cartesian> = a5::core::origin::get_origins().iter().map(|o| to_cartesian(o.axis)).collect();
+        let dot = |a: &Cartesian, b: &Cartesian| a.x() * b.x() + a.y() * b.y() + a.z() * b.z();
+        let mut tris: Vec<(usize, [Cartesian; 3])> = Vec::new();
+        if let Ok(mut crs) = a5::projections::crs::CRS::new() {
+            for i in 0..centres.len() {
+                let nb: Vec<usize> = (0..centres.len()).filter(|&j| j != i && dot(&centres[i], &centres[j]) > 0.3).collect();
+                for &j in &nb {
+                    for &k in &nb {
+                        if k == j || dot(&centres[j], &centres[k]) <= 0.3 {
+                            continue;
+                        }
+                        // face centre, midpoint of the edge towards face j, corner shared with j and k
+                        let (ci, cj, ck) = (centres[i], centres[j], centres[k]);
+                        let f = crs.get_vertex(ci);
+                        let m = crs.get_vertex(unit(ci.x() + cj.x(), ci.y() + cj.y(), ci.z() + cj.z()));
+                        let v = crs.get_vertex(unit(ci.x() + cj.x() + ck.x(), ci.y() + cj.y() + ck.y(), ci.z() + cj.z() + ck.z()));
+                        if let (Ok(f), Ok(m), Ok(v)) = (f, m, v) {
+                            tris.push((i, [f, m, v]));
+                        }
+                    }
+                }
+            }
+        }
+        let c3 = |c: &Cartesian| (F::of(c.x()), F::of(c.y()), F::of(c.z()));
+        for _ in 0..n(10) {
+            if tris.is_empty() {
+                break;
+            }
+            let (face, t) = rng.pick(&tris).clone();
+            fam += 1;
+            fam_types.push(cur_type);
+            let g = (face / 1) as u8 % 12;
+            let (a, b, c) = (c3(&t[0]), c3(&t[1]), c3(&t[2]));
+            let tt = F::of(rng.uniform(0.0, 3.0));
+            for pts in [vec![a, b, c], vec![a, c, b], vec![b, c, a], vec![c, b, a], vec![b, a, c], vec![c, a, b]] {
+                pushf(&mut ops, Op::SphTriShape { pts: pts.clone(), n: 2, closed: false, t: tt }, g, fam);
+                if rng.pct(50) {
+                    pushf(&mut ops, Op::SphPolyArea { pts }, g, fam);
+                }
+            }
+            pushf(&mut ops, Op::VectorOps { a, b, c, t: F::of(rng.unit()) }, g, fam);
+            pushf(&mut ops, Op::VectorOps { a: c, b, c: a, t: F::of(rng.unit()) }, g, fam);
+            for v in [a, b, c] {
+                pushf(&mut ops, Op::CrsVertex { inst: None, x: v.0, y: v.1, z: v.2 }, g, fam);
+                pushf(&mut ops, Op::CoordXform { x: v.0, y: v.1, z: v.2 }, g, fam);
+            }
+            // indexing calls inside that triangle: points near the centroid and near each vertex
+            for w in [(1.0, 1.0, 1.0), (4.0, 1.0, 1.0), (1.0, 4.0, 1.0), (1.0, 1.0, 4.0)] {
+                let p = unit(
+                    w.0 * t[0].x() + w.1 * t[1].x() + w.2 * t[2].x(),
+                    w.0 * t[0].y() + w.1 * t[1].y() + w.2 * t[2].y(),
+                    w.0 * t[0].z() + w.1 * t[1].z() + w.2 * t[2].z(),
+                );
+                let sp = a5::core::coordinate_transforms::to_spherical(p);
+                let ll = to_lon_lat(sp);
+                let r = rng.range(1, 12) as i32;
+                pushf(&mut ops, Op::LonLatToCell { lon: F::of(ll.longitude()), lat: F::of(ll.latitude()), res: r }, g, fam);
+                pushf(&mut ops, Op::Forward { t: Target::Tl, theta: F::of(sp.theta().get()), phi: F::of(sp.phi().get()), origin: face as u8 }, g, fam);
+                if let Ok(cell) = a5::lonlat_to_cell(LonLat::new(ll.longitude(), ll.latitude()), r) {
+                    pushf(&mut ops, Op::CellToLonLat { cell }, g, fam);
+                    pushf(&mut ops, Op::CellToBoundary { cell, closed: true, segments: Some(1) }, g, fam);
+                }
+            }
+        }
+        // the library's 2-D constants as helper arguments: face / quintant vertices into the
+        // barycentric and pentagon-shape helpers, a cell's boundary into normalize_longitudes
+        for _ in 0..n(6) {
+            fam += 1;
+            fam_types.push(cur_type);
+            let q = rng.below(5) as usize;
+            let qv = a5::core::tiling::get_quintant_vertices(q);
+            let verts: Vec<(F, F)> = qv.get_vertices().iter().map(|v| (F::of(v.x()), F::of(v.y()))).collect();
+            let fv: Vec<(F, F)> = a5::core::tiling::get_face_vertices().get_vertices().iter().map(|v| (F::of(v.x()), F::of(v.y()))).collect();
+            pushf(&mut ops, Op::QuintantVertices { q: q as u32 }, 255, fam);
+            pushf(&mut ops, Op::FaceVertices, 255, fam);
+            if verts.len() >= 3 {
+                let p = (F::of((verts[0].0.v() + verts[1].0.v() + verts[2].0.v()) / 3.0), F::of((verts[0].1.v() + verts[1].1.v() + verts[2].1.v()) / 3.0));
+                pushf(&mut ops, Op::Barycentric { p, tri: vec![verts[0], verts[1], verts[2]] }, 255, fam);
+                pushf(&mut ops, Op::Barycentric { p, tri: vec![verts[0], verts[2], verts[1]] }, 255, fam);
+                pushf(&mut ops, Op::FaceToIj { x: p.0, y: p.1 }, 255, fam);
+                pushf(&mut ops, Op::PentagonShapeOps { verts: vec![verts[0], verts[1], verts[2]], px: p.0, py: p.1, k: F::of(1.5) }, 255, fam);
+            }
+            if fv.len() == 5 {
+                let mut rev = fv.clone();
+                rev.reverse();
+                pushf(&mut ops, Op::PentagonShapeOps { verts: fv.clone(), px: F::of(0.01), py: F::of(-0.02), k: F::of(0.5) }, 255, fam);
+                pushf(&mut ops, Op::PentagonShapeOps { verts: rev, px: F::of(0.01), py: F::of(-0.02), k: F::of(0.5) }, 255, fam);
+            }
+            let &(c, g) = rng.pick(&base_cells);
+            if let Ok(bd) = a5::cell_to_boundary(c, None) {
+                let pts: Vec<(F, F)> = bd.iter().map(|p| (F::of(p.longitude()), F::of(p.latitude()))).collect();
+                if !pts.is_empty() && pts.len() <= 64 {
+                    pushf(&mut ops, Op::CellToBoundaryDefault { cell: c }, g, fam);
+                    pushf(&mut ops, Op::NormalizeLongitudes { pts: pts.clone() }, g, fam);
+                    let cart: Vec<(F, F, F)> = bd
+                        .iter()
+                        .map(|p| {
+                            let c = to_cartesian(a5::core::coordinate_transforms::from_lon_lat(*p));
+                            (F::of(c.x()), F::of(c.y()), F::of(c.z()))
+                        })
+                        .collect();
+                    let mut rev = cart.clone();
+                    rev.reverse();
+                    pushf(&mut ops, Op::SphPolyArea { pts: cart }, g, fam);
+                    pushf(&mut ops, Op::SphPolyArea { pts: rev }, g, fam);
+                    pushf(&mut ops, Op::FromLonLat { lon: pts[0].0, lat: pts[0].1 }, g, fam);
+                    pushf(&mut ops, Op::CellArea { res: a5::get_resolution(c) }, g, fam);
+                }
+            }
+        }
     }
 
     // ---- poison siblings: for members of each family, the same call with ONE argument made
